@@ -50,7 +50,7 @@ def run(tier):
     from vlib.common import REPO
     tc = time.time()
     nv = len(rep.violations)
-    ncorp = gcommon.corpus_layout_check(rep, G, REPO, limit=150 if quick else 1000)
+    ncorp = gcommon.corpus_layout_check(rep, G, REPO, limit=260 if quick else 1000)
     rep.cond("c12.fixture_declarations_relayout", "real parser on 7 layouts of each fixture declaration (validation corpus)",
              "confirmed" if len(rep.violations) == nv else "counterexample", time.time() - tc, "%d declarations of tests/fixtures/*.i" % ncorp)
     tok, length = gram.mk_stream(N)
